@@ -76,20 +76,44 @@ def strip_lean_comments(text):
     return ''.join(out)
 
 
-def grep_forbidden(paths=None):
-    """Textual audit of the Lean sources: returns list of (file, lineno, line)."""
+def import_closure(modules):
+    """Files of the given MpycV modules and everything they import from this project (transitively)."""
+    seen, todo, files = set(), list(modules), []
+    while todo:
+        mod = todo.pop()
+        if mod in seen or not mod.startswith('MpycV'):
+            continue
+        seen.add(mod)
+        fp = os.path.join(LEAN_DIR, *mod.split('.')) + '.lean'
+        if not os.path.exists(fp):
+            continue
+        files.append(fp)
+        for imp in re.findall(r'^\s*(?:public\s+)?import\s+(MpycV\.[\w.]+)', open(fp).read(), re.M):
+            todo.append(imp)
+    return files
+
+
+def grep_forbidden(modules=None):
+    """Textual audit of the Lean sources a property depends on (its modules' import closure plus all drivers):
+    returns list of (file, lineno, line)."""
     hits = []
-    roots = paths or [os.path.join(LEAN_DIR, 'MpycV'), os.path.join(LEAN_DIR, 'Drv')]
-    for root in roots:
-        for dp, _dn, fns in os.walk(root):
-            for fn in fns:
-                if not fn.endswith('.lean'):
-                    continue
-                fp = os.path.join(dp, fn)
-                text = strip_lean_comments(open(fp).read())
-                for k, line in enumerate(text.split('\n'), 1):
-                    if FORBIDDEN_RE.search(line):
-                        hits.append((os.path.relpath(fp, LEAN_DIR), k, line.strip()[:120]))
+    if modules is None:
+        files = []
+        for root in (os.path.join(LEAN_DIR, 'MpycV'), os.path.join(LEAN_DIR, 'Drv')):
+            for dp, _dn, fns in os.walk(root):
+                files += [os.path.join(dp, fn) for fn in fns if fn.endswith('.lean')]
+    else:
+        files = import_closure(modules)
+        drv = os.path.join(LEAN_DIR, 'Drv')
+        for fn in os.listdir(drv):
+            if fn.endswith('.lean'):
+                files.append(os.path.join(drv, fn))
+                files += import_closure(re.findall(r'^import\s+(MpycV\.[\w.]+)', open(os.path.join(drv, fn)).read(), re.M))
+    for fp in sorted(set(files)):
+        text = strip_lean_comments(open(fp).read())
+        for k, line in enumerate(text.split('\n'), 1):
+            if FORBIDDEN_RE.search(line):
+                hits.append((os.path.relpath(fp, LEAN_DIR), k, line.strip()[:120]))
     return hits
 
 
